@@ -9,11 +9,12 @@ import AsynqModel.Lib.Contexts
         * AsyncTask._pause_contexts walks over a COPY: `for ctx in reversed(list(self._contexts.values()))`
           (async_task.py:401) - every context registered when the suspension began gets its pause(), also one that an
           earlier hook has unregistered meanwhile;
-        * AsyncTask._resume_contexts walks over the LIVE OrderedDict: `for ctx in self._contexts.values()`
-          (async_task.py:416) - when a hook other than the last one changes the dict, the next step of the iteration raises
-          RuntimeError("OrderedDict mutated during iteration") OUTSIDE the try/except of the loop: it leaves
-          `_resume_contexts`, `_continue_with_task` / `_handle_async_task`, `_execute`, `wait_for`, `value()`; the task is
-          not computed, `_contexts_active` is already True, the remaining contexts are not resumed (`crashed`).
+        * AsyncTask._resume_contexts walks over a COPY too: `for ctx in list(self._contexts.values())` (async_task.py:431,
+          since /repo commit 28d2b07) - every context registered when the continuation began gets its resume(), also one
+          that an earlier resume() hook has unregistered meanwhile (it is resumed although it is no longer the task's: the
+          mirror image of the pause loop); the first exception wins.  BEFORE that commit the loop walked over the live
+          OrderedDict and a hook (other than the last one) that unregistered a context made the `for` statement itself raise
+          RuntimeError("OrderedDict mutated during iteration") out of the scheduler (the finding that led to the repair).
       Who is the active task while a hook runs decides what a hook-issued `__enter__` registers (contexts.py:57-62):
       hooks called by the scheduler (`suspend`, `continue`, `revisit`) run while NO task is active (one top-level task), so a
       member entered there is NOT registered (`_active_task = None`); hooks called by `c.__enter__()` / `c.__exit__()` of the
@@ -108,15 +109,12 @@ def pauseLoopH (cfg : Cfg) (defs : List Kind) (hd : HDefs) : List Nat → St →
     match pauseCtxH cfg defs hd s c with
     | (s', cl, e) => pauseLoopH cfg defs hd rest s' (calls ++ cl) (keepLast e err)
 
-/-- `_resume_contexts`: the loop over the LIVE `self._contexts.values()`; the flag: the iteration raised RuntimeError
-    because a hook other than the last one changed the dict -/
-def resumeLoopH (cfg : Cfg) (defs : List Kind) (hd : HDefs) : List Nat → St → List Call → Option Exc → St × List Call × Option Exc × Bool
-  | [], s, calls, err => (s, calls, err, false)
+/-- `_resume_contexts`: the loop over the COPY `list(self._contexts.values())`; the FIRST exception is kept -/
+def resumeLoopH (cfg : Cfg) (defs : List Kind) (hd : HDefs) : List Nat → St → List Call → Option Exc → St × List Call × Option Exc
+  | [], s, calls, err => (s, calls, err)
   | c :: rest, s, calls, err =>
     match resumeCtxH cfg defs hd s c with
-    | (s', cl, e) =>
-      if s'.reg != s.reg && !rest.isEmpty then (s', calls ++ cl, keepFirst err e, true)
-      else resumeLoopH cfg defs hd rest s' (calls ++ cl) (keepFirst err e)
+    | (s', cl, e) => resumeLoopH cfg defs hd rest s' (calls ++ cl) (keepFirst err e)
 
 def pauseContextsH (cfg : Cfg) (defs : List Kind) (hd : HDefs) (s : St) : St × List Call :=
   if !s.active then (s, []) else
@@ -124,13 +122,11 @@ def pauseContextsH (cfg : Cfg) (defs : List Kind) (hd : HDefs) (s : St) : St × 
     | (s', calls, some e) => (acceptError s' e, calls)
     | (s', calls, none) => (s', calls)
 
-/-- the flag: RuntimeError left `_resume_contexts` (the collected hook error is lost with the frame) -/
-def resumeContextsH (cfg : Cfg) (defs : List Kind) (hd : HDefs) (s : St) : St × List Call × Bool :=
-  if s.active then (s, [], false) else
+def resumeContextsH (cfg : Cfg) (defs : List Kind) (hd : HDefs) (s : St) : St × List Call :=
+  if s.active then (s, []) else
     match resumeLoopH cfg defs hd s.reg { s with active := true } [] none with
-    | (s', calls, _, true) => (s', calls, true)
-    | (s', calls, some e, false) => (acceptError s' e, calls, false)
-    | (s', calls, none, false) => (s', calls, false)
+    | (s', calls, some e) => (acceptError s' e, calls)
+    | (s', calls, none) => (s', calls)
 
 def enterOpH (cfg : Cfg) (defs : List Kind) (hd : HDefs) (s : St) (c : Nat) : St × List Call × Esc :=
   if !isAsyncCtx (kindOf defs c) then (enterS1 s c, [], .none)
@@ -160,10 +156,6 @@ def exitOpH (cfg : Cfg) (defs : List Kind) (hd : HDefs) (s : St) (c : Nat) : St 
       | (s2, calls, none) => (delAttr s2 c, calls, .none)
       | (s2, calls, some e) => (s2, calls, .exc e)
 
-/-- the scheduler lost control: the exception travels up to `value()`; the task is left uncomputed and what follows in
-    the history runs at top level -/
-def crash (s : St) : St := { s with phase := .done }
-
 def stepCoreH (cfg : Cfg) (defs : List Kind) (hd : HDefs) (s : St) (op : HOp) : St × List Call × Esc :=
   match op with
   | .base (.enter c) => if c < defs.length then enterOpH cfg defs hd s c else (s, [], .skip)
@@ -171,14 +163,12 @@ def stepCoreH (cfg : Cfg) (defs : List Kind) (hd : HDefs) (s : St) (op : HOp) : 
   | .base .suspend =>
     if s.phase != .running then (s, [], .skip) else
       match resumeContextsH cfg defs hd { s with phase := .suspended } with
-      | (s1, c1, true) => (crash s1, c1, .exc .other)
-      | (s1, c1, false) => match pauseContextsH cfg defs hd s1 with
+      | (s1, c1) => match pauseContextsH cfg defs hd s1 with
         | (s2, c2) => (s2, c1 ++ c2, .none)
   | .base .continue_ =>
     if s.phase != .suspended then (s, [], .skip) else
       match resumeContextsH cfg defs hd s with
-      | (s1, calls, true) => (crash s1, calls, .exc .other)
-      | (s1, calls, false) => ((if s1.status != .none then s1 else { s1 with phase := .running }), calls, .none)
+      | (s1, calls) => ((if s1.status != .none then s1 else { s1 with phase := .running }), calls, .none)
   | .base (.finish ok) =>
     if s.phase != .running then (s, [], .skip) else
       ({ s with status := if ok then .ok else .err .taskError, phase := .done }, [], .none)
@@ -188,8 +178,7 @@ def stepCoreH (cfg : Cfg) (defs : List Kind) (hd : HDefs) (s : St) (op : HOp) : 
       -- are pushed and popped again), second visit `_pause_contexts` - unless the resume failed the task: a computed task
       -- is just popped
       match resumeContextsH cfg defs hd s with
-      | (s1, c1, true) => (crash s1, c1, .exc .other)
-      | (s1, c1, false) =>
+      | (s1, c1) =>
         if s1.status != .none then (s1, c1, .none) else
           match pauseContextsH cfg defs hd s1 with
           | (s2, c2) => (s2, c1 ++ c2, .none)
@@ -245,7 +234,8 @@ def specClauseH (obs : List ObsH) : String :=
   | some ob => "hook-error-escapes-scheduler@" ++ opNameH ob.op
   | none => "ok"
 
-/-- no resume() script leaves a context: then no hook can change `task._contexts` while `_resume_contexts` walks over it -/
+/-- no resume() script leaves a context (before /repo commit 28d2b07 this was what kept `_resume_contexts`, which walked over
+    the live dict, from raising RuntimeError; kept for the record and for the generator's statistics) -/
 def HAct.isEnter : HAct → Bool
   | .enter _ => true
   | .exit _ => false
